@@ -39,6 +39,7 @@ pub fn tok_bytes(t: &str) -> Vec<u8> {
         "NUL" => vec![0],
         "W2" => "\u{e9}".as_bytes().to_vec(),
         "W3" => "\u{3042}".as_bytes().to_vec(),
+        "W4" => "\u{1f600}".as_bytes().to_vec(),
         "BAD" => vec![0xff],
         "CUT" => vec![0xc3],
         _ => t.as_bytes().to_vec(),
@@ -59,12 +60,12 @@ pub fn input_bytes(toks: &[String]) -> (Vec<u8>, Vec<usize>) {
 
 /// A value of the shell in the spelling of the specification.
 pub fn enc_val(s: &str) -> String {
-    s.replace('\u{e9}', "W2").replace('\u{3042}', "W3")
+    s.replace('\u{e9}', "W2").replace('\u{3042}', "W3").replace('\u{1f600}', "W4")
 }
 
 /// The operand of -d / a token as it is written in the script.
 pub fn dec_text(s: &str) -> String {
-    s.replace("W2", "\u{e9}").replace("W3", "\u{3042}")
+    s.replace("W2", "\u{e9}").replace("W3", "\u{3042}").replace("W4", "\u{1f600}")
 }
 
 // ---------------------------------------------------------------------------
